@@ -12,7 +12,7 @@ import sched as SC
 import simnet
 from refserver import RefServer
 
-EXTRA_PROPS = ['C16Live', 'C16Ends']
+EXTRA_PROPS = ['C16Live', 'C16Ends', 'C16Carry']
 
 RULE = ("call histories of length <= 6 over {connect, status, disconnect, disconnect(immediate)} with "
         "optional reconnect-from-listener / reconnect-from-exception-handler budgets against per-attempt "
